@@ -13,91 +13,115 @@ The confinement theorems of `Props/C03*.lean` speak about LINEAR byte addresses.
 sectors a WRITE frame carries `page % 256`; where it lands is decided by the sector the tag is really in.
 The theorems below close that gap for all histories and all fault scripts, up to the first event that no
 reader can handle (`Ev.clean`; see `Model/SectC03`): an unfaithful passive acknowledgement of SECTOR
-SELECT packet 2, or - the code as it is - a re-activation of the tag (NAK answer to READ) while the
-object believes another sector than 0.
+SELECT packet 2.  The model is the repaired code: a re-activation of the tag (NAK answer to READ) sets the
+belief to sector 0, a packet 2 answered by anything but silence makes the belief unknown (`none`), so that
+the next page access selects its sector again.
 -/
 namespace NfcVerif.C03Sect
 open NfcVerif NfcVerif.SectC03
 
-/-- **The tag object's belief about the selected sector is right whenever a command is executed.**  For
+/-- **The tag object's belief about the selected sector is never wrong when a command is executed.**  For
 every memory, every fault script (any fault on any exchange, any number of them) and every history of
 `reader[a]`, `reader[a] = v`, `synchronize()`, `sector_select`, `read`, `write` calls with retries after
-errors: every READ / WRITE / SECTOR SELECT the tag executed before the first ambiguous event was sent
-while `_current_sector` was the sector the tag really was in; and at the end the belief is still right. -/
+errors: every READ / WRITE / SECTOR SELECT the tag executed before the first unfaithful passive
+acknowledgement was sent while `_current_sector` was either unknown (`None`) or the sector the tag really
+was in; and at the end the belief is still unknown or right.  Re-activations and damaged answers to
+packet 2 are covered (not excluded). -/
 theorem sector_belief_sound (mem : Bytes) (script : List Air) (ops : List Op) :
-    (∀ e ∈ (run (fresh mem script) ops).1.1.trace, e.clean = true → e.bel = e.real)
+    (∀ e ∈ (run (fresh mem script) ops).1.1.trace, e.clean = true → e.bel = none ∨ e.bel = some e.real)
     ∧ ((run (fresh mem script) ops).1.1.amb = false →
-        (run (fresh mem script) ops).1.1.cur = (run (fresh mem script) ops).1.1.tag.sector) := by
-  have h := run_inv ops (fresh mem script) ⟨fun _ => rfl, fun e he => by simp [fresh] at he⟩
+        (run (fresh mem script) ops).1.1.cur = none ∨
+        (run (fresh mem script) ops).1.1.cur = some (run (fresh mem script) ops).1.1.tag.sector) := by
+  have h := run_inv ops (fresh mem script) ⟨fun _ => Or.inr rfl, fun e he => by simp [fresh] at he⟩
   exact ⟨fun e he hc => (h.2 e he).1 hc, h.1⟩
 
-/-- the same from any state of object and reader in which belief and reality agree -/
+/-- the same from any state of object and reader in which the belief is unknown or right -/
 theorem sector_belief_sound_from (s : W × MR) (ops : List Op) (hi : Inv s.1) :
-    ∀ e ∈ (run s ops).1.1.trace, e.clean = true → e.bel = e.real :=
+    ∀ e ∈ (run s ops).1.1.trace, e.clean = true → e.bel = none ∨ e.bel = some e.real :=
   fun e he hc => ((run_inv ops s hi).2 e he).1 hc
 
 /-- **Every page command of the memory reader lands on the linear address it is meant for**: a READ or
 WRITE issued by `_read_from_tag` / `_write_to_tag` for linear page `p` (byte address `4 p`, any sector)
-and executed by the tag before the first ambiguous event touched exactly the bytes `4 p ..` of the flat
-memory - whatever faults hit earlier exchanges (including both SECTOR SELECT packets) and however often
-the application retried. -/
+and executed by the tag before the first unfaithful passive acknowledgement touched exactly the bytes
+`4 p ..` of the flat memory - whatever faults hit earlier exchanges (both SECTOR SELECT packets, NAK answers
+with re-activation, damaged answers) and however often the application retried. -/
 theorem reader_commands_land (mem : Bytes) (script : List Air) (ops : List Op) :
     ∀ e ∈ (run (fresh mem script) ops).1.1.trace, e.mr = true → e.kind ≠ .select → e.clean = true →
       e.addr = e.page * 4 := by
   intro e he hm hk hc
-  have h := run_inv ops (fresh mem script) ⟨fun _ => rfl, fun e he => by simp [fresh] at he⟩
+  have h := run_inv ops (fresh mem script) ⟨fun _ => Or.inr rfl, fun e he => by simp [fresh] at he⟩
   have h1 := (h.2 e he).1 hc
   have h2 := (h.2 e he).2 hm hk
+  rw [h2] at h1
+  simp at h1
   unfold Ev.addr
   omega
 
 /-- **Independent of faults the memory reader selects the sector of the page it is about to address**:
-every page command it sends is sent while the object believes sector `page / 256`. -/
+every page command it sends is sent while the object believes - knows - sector `page / 256` (never while
+the belief is unknown). -/
 theorem reader_selects_sector (mem : Bytes) (script : List Air) (ops : List Op) :
-    ∀ e ∈ (run (fresh mem script) ops).1.1.trace, e.mr = true → e.kind ≠ .select → e.bel = e.page / 256 := by
+    ∀ e ∈ (run (fresh mem script) ops).1.1.trace, e.mr = true → e.kind ≠ .select →
+      e.bel = some (e.page / 256) := by
   intro e he hm hk
-  have h := run_inv ops (fresh mem script) ⟨fun _ => rfl, fun e he => by simp [fresh] at he⟩
+  have h := run_inv ops (fresh mem script) ⟨fun _ => Or.inr rfl, fun e he => by simp [fresh] at he⟩
   exact (h.2 e he).2 hm hk
 
-/-- a failed `sector_select` (any fault on packet 1, a damaged packet 2) leaves belief = reality -/
+/-- a failed `sector_select` (any fault on packet 1, a damaged packet 2 or a damaged answer to it) leaves the
+belief unknown or right; a successful one ends with belief = requested sector -/
 theorem sector_select_keeps_belief (w : W) (mr : Bool) (s : Nat) (hi : Inv w) :
-    Inv (sectorSelect w mr s).1 ∧ (∀ v, (sectorSelect w mr s).2 = .ok v → (sectorSelect w mr s).1.cur = s) :=
+    Inv (sectorSelect w mr s).1 ∧
+    (∀ v, (sectorSelect w mr s).2 = .ok v → (sectorSelect w mr s).1.cur = some s) :=
   sectorSelect_spec w mr s hi
+
+/-- **Re-activation is handled**: after a READ answered with NAK (the tag is sensed again and returns to
+sector 0) the object believes sector 0 - from any state in which the belief was unknown or right. -/
+theorem reactivation_sound (w : W) (mr : Bool) (p : Nat) (hi : Inv w) (hp : mr = true → w.cur = some (p / 256)) :
+    Inv (read w mr p).1 :=
+  read_spec w mr p hi hp
 
 /-! ### non-vacuity and necessity of the `clean` hypothesis -/
 
 def mem2 : Bytes := List.replicate 1040 0
 
 /-- non-vacuity: packet 2 of the first select is damaged (error reaches the application, tag stays in sector
-0), the retry succeeds, a WRITE answer is lost and the WRITE repeated: two clean WRITEs executed in sector 1 -/
+0, belief unknown), the retry selects again, a WRITE answer is lost and the WRITE repeated: two clean WRITEs
+executed in sector 1 -/
 example :
     ((run (fresh mem2 [.ok, .corrupt .transmission, .ok, .ok, .lost .transmission]) [.sel 1, .sel 1, .wr 257 [1, 2, 3, 4]]).1.1.trace.map
       fun e => (e.kind, e.real, e.bel, e.addr, e.clean))
-      = [(.write, 1, 1, 1028, true), (.write, 1, 1, 1028, true), (.select, 0, 0, 4, true)] := by
+      = [(.write, 1, some 1, 1028, true), (.write, 1, some 1, 1028, true), (.select, 0, none, 4, true)] := by
   decide +kernel
 
 /-- the same through the memory reader: reading byte 1030 walks 65 READs over the sector boundary -/
 example :
     (((run (fresh mem2 [.drop, .lost .protocol]) [.get 1030]).1.1.trace.filter fun e => e.real = 1).map
-      fun e => (e.kind, e.bel, e.addr, e.mr, e.clean)) = [(.read, 1, 1024, true, true)] := by
+      fun e => (e.kind, e.bel, e.addr, e.mr, e.clean)) = [(.read, some 1, 1024, true, true)] := by
   decide +kernel
 
-/-- **Why `clean` cannot be dropped (1): the passive acknowledgement.**  Packet 2 never reaches the tag, the
+/-- re-activation (formerly finding `t2-sector-stale-after-reactivation`): the READ in sector 1 is answered with
+NAK, the tag is sensed again and returns to sector 0, the object believes sector 0, so `sector_select(1)` sends
+the command again and the WRITE for linear page 256 lands on byte 1024 -/
+example :
+    ((run (fresh mem2 [.ok, .ok, .corrupt .nak]) [.sel 1, .rd 256, .sel 1, .wr 256 [1, 2, 3, 4]]).1.1.trace.map
+      fun e => (e.kind, e.real, e.bel, e.addr, e.clean))
+      = [(.write, 1, some 1, 1024, true), (.select, 0, some 0, 4, true), (.select, 0, some 0, 4, true)] := by
+  decide +kernel
+
+/-- damaged answer to packet 2 while the tag DID switch: not ambiguous any more - the belief becomes unknown; a
+direct `write` then runs with an unknown belief (the memory reader would select first, `reader_selects_sector`) -/
+example :
+    ((run (fresh mem2 [.ok, .lost .transmission]) [.sel 1, .wr 0 [1, 2, 3, 4]]).1.1.trace.map
+      fun e => (e.kind, e.real, e.bel, e.addr, e.clean))
+      = [(.write, 1, none, 1024, true), (.select, 0, some 0, 4, true)] := by
+  decide +kernel
+
+/-- **Why `clean` cannot be dropped: the passive acknowledgement.**  Packet 2 never reaches the tag, the
 reader sees the silence it expects: the object believes sector 1, the tag is in sector 0 and the second WRITE
 to linear page 256 lands on page 0 (the identifier). No reader can tell this from a successful select. -/
 theorem unfaithful_ack_counterexample :
     ((run (fresh mem2 [.ok, .drop]) [.sel 1, .wr 256 [1, 2, 3, 4], .wr 256 [1, 2, 3, 4]]).1.1.trace.map
-      fun e => (e.kind, e.real, e.bel, e.addr, e.clean)) = [(.write, 0, 1, 0, false)] := by
-  decide +kernel
-
-/-- **Why `clean` cannot be dropped (2): the code as it is after a re-activation** (finding
-`t2-sector-stale-after-reactivation`).  The tag answers a READ in sector 1 with NAK (it received a damaged
-frame); `Type2Tag.read` senses the tag again, which returns it to sector 0, but `_current_sector` stays 1:
-the next `sector_select(1)` sends nothing and the WRITE for linear page 256 lands on page 0. -/
-theorem reactivation_counterexample :
-    ((run (fresh mem2 [.ok, .ok, .corrupt .nak]) [.sel 1, .rd 256, .sel 1, .wr 256 [1, 2, 3, 4]]).1.1.trace.map
-      fun e => (e.kind, e.real, e.bel, e.addr, e.clean))
-      = [(.write, 0, 1, 0, false), (.select, 0, 0, 4, true)] := by
+      fun e => (e.kind, e.real, e.bel, e.addr, e.clean)) = [(.write, 0, some 1, 0, false)] := by
   decide +kernel
 
 end NfcVerif.C03Sect
